@@ -533,6 +533,7 @@ class C19(verif.Spec):
         ncnf = {}           # handle -> TOKEN_CNFs received (the k-th answers the k-th request)
         reclaimed = {}
         cnf_early = {}
+        deferred = {}           # holder -> alarm text waiting for the holder's next read (see below)
         askq = {}           # handle -> sends that change "asks for channel control", not yet answered, in send order:
                             #           ["T", asked] token request, ["N", release] notify (RELEASE withdraws the request)
         asks = {}           # handle -> does the client ask for channel control, as far as the daemon has ANSWERED its messages
@@ -628,8 +629,15 @@ class C19(verif.Spec):
                         stale = any(x in ("T", "F") for x in fifo.get(c, []))
                         for a, hv in holds.items():
                             if hv and a != c and dev_of.get(a) == d and a not in gone and not stale and c not in gone:
-                                return ("grant to client %d while client %d holds the token (no return, release, reclaim "
+                                wmsg = ("grant to client %d while client %d holds the token (no return, release, reclaim "
                                         "confirmation or disconnect of %d since its grant)" % (c, a, a))
+                                if cnf_early.get(a):
+                                    # the holder has sent a RECLAIM_CNF without looking at its socket first: the RECLAIM_REQ
+                                    # it answers may still be unread there (per-client streams, no global order).  Judged
+                                    # when the holder reads next: a RECLAIM_REQ must be in that batch.
+                                    deferred[a] = wmsg
+                                    continue
+                                return wmsg
                         # the daemon decided after the request answered last and possibly after later ones
                         rq = treq.get(c, [])
                         k = ncnf.get(c, 0)
@@ -645,6 +653,10 @@ class C19(verif.Spec):
                             return "grant to client %d that does not currently ask for channel control (it withdrew its request)" % c
                         holds[c] = not stale and c not in gone     # a log read after the client's own disconnect is history
                         reclaimed[c] = False
+                if c in deferred:
+                    wmsg = deferred.pop(c)
+                    if not any(m.startswith("RECLAIM_REQ") or m == "EOF" for m in msgs):
+                        return wmsg
                 # a RECLAIM_CNF sent before this read may answer any RECLAIM_REQ in the batch, also one behind a TOKEN_IND
                 cnf_early[c] = False
             elif w[0] == "iter":
